@@ -184,7 +184,14 @@ def c18(tier, seed):
                     {"U_free_bytes": N})
 
 
-PROPS = {"C01": c01, "C02": c02, "C08": c08, "C12": c12, "C13": c13, "C15": c15, "C16": c16, "C17": c17, "C18": c18}
+def c20(tier, seed):
+    import c20 as C20
+    c = Check("C20", tier, seed)
+    C20.run(c, tier)
+    return c.finish("other", "finite: every entry of the five shipped tables (executed init) against well-formedness predicates (z3 over a symbolic entry index), the pinned baseline, and the real look-up code", {"entries": "all"})
+
+
+PROPS = {"C20": c20, "C01": c01, "C02": c02, "C08": c08, "C12": c12, "C13": c13, "C15": c15, "C16": c16, "C17": c17, "C18": c18}
 
 
 
